@@ -7,6 +7,7 @@ package main
 import (
 	"bytes"
 	"context"
+	"runtime/pprof"
 	"errors"
 	"fmt"
 	"runtime"
@@ -582,9 +583,132 @@ func encodeResult(it *itemT, v graphql.ResolveResult) sexp.Node {
 	return sexp.T("ok", sexp.Int(it.id))
 }
 
+// chainGoroutines counts the goroutines started through apifu.Go for the connection with this label
+// (the library's chain / join goroutines and the getters' own) that still exist, from the labelled goroutine
+// profile (the only dump that shows pprof labels).
+func chainGoroutines(label string) int {
+	var buf bytes.Buffer
+	pprof.Lookup("goroutine").WriteTo(&buf, 1)
+	n := 0
+	for _, blk := range strings.Split(buf.String(), "\n\n") {
+		if !strings.Contains(blk, "\"c15conn\":\""+label+"\"") {
+			continue
+		}
+		if !strings.Contains(blk, apiPkg+"Go.func1") {
+			continue
+		}
+		k, _ := strconv.Atoi(strings.TrimSpace(blk[:strings.IndexByte(blk, '@')]))
+		n += k
+	}
+	return n
+}
+
+func (r *run) goroutineGone(goid int64) bool {
+	for _, g := range dump() {
+		if g.id == goid {
+			return false
+		}
+	}
+	return true
+}
+
+// observeInnerDelivery: the handler returned without a flush and without filling a promise the
+// executor holds, so (C15_idle_round_fulfils) it filled an inner promise and returned instead of
+// looping.  Which one is observed, not inferred: a Go getter whose goroutine has ended, or the
+// innermost chain / join of a connection whose labelled goroutine has ended.  Called without r.mu.
+func (r *run) observeInnerDelivery() {
+	for try := 0; try < 400; try++ {
+		r.mu.Lock()
+		for _, it := range r.items {
+			if it.kind == kGo && it.inner && r.created[it.id] && r.finished[it.id] && !r.recvd[it.id] {
+				goid := r.ctl[it.id].goid
+				r.mu.Unlock()
+				gone := r.goroutineGone(goid)
+				r.mu.Lock()
+				if gone {
+					if !r.arrived[it.id] {
+						r.arrived[it.id] = true
+						r.logf("arrive", it.id)
+					}
+					r.recvd[it.id] = true
+					r.logf("recv", it.id)
+					r.mu.Unlock()
+					return
+				}
+			}
+		}
+		for _, spec := range r.conns {
+			pending := 0
+			first := -1
+			for _, c := range spec.chains {
+				if r.created[c] && !r.recvd[c] {
+					if first < 0 {
+						first = c
+					}
+					pending++
+				}
+			}
+			// only inner chains end a round this way; the outermost one is visible to the executor
+			if pending < 2 || first < 0 || !r.items[first].inner {
+				continue
+			}
+			// getter goroutines of this connection that have not handed over yet exist as well
+			for _, g := range spec.getters {
+				if g.item >= 0 && r.items[g.item].kind == kGo && r.created[g.item] && !r.recvd[g.item] {
+					pending++
+				}
+			}
+			r.mu.Unlock()
+			alive := chainGoroutines(connLabel(spec))
+			r.mu.Lock()
+			if alive < pending {
+				// the missing goroutine may be a getter's that ended between the two looks
+				getterGone := false
+				for _, g := range spec.getters {
+					if g.item >= 0 && r.items[g.item].kind == kGo && r.created[g.item] && r.finished[g.item] && !r.recvd[g.item] {
+						goid := r.ctl[g.item].goid
+						r.mu.Unlock()
+						gone := r.goroutineGone(goid)
+						r.mu.Lock()
+						if gone {
+							getterGone = true
+						}
+					}
+				}
+				if getterGone {
+					continue // the next try attributes it to the getter
+				}
+				r.ensureChainFinished(first)
+				r.recvd[first] = true
+				r.logf("recv", first)
+				r.mu.Unlock()
+				return
+			}
+		}
+		r.mu.Unlock()
+		runtime.Gosched()
+	}
+}
+
 // afterIdle: on the executor thread, right after the real idle handler returned.
 func (r *run) afterIdle() {
 	r.mu.Lock()
+	if !r.roundFlush {
+		visible := false
+		for _, it := range r.items {
+			if it.kind == kSync || it.inner || !r.created[it.id] || r.delivered[it.id] {
+				continue
+			}
+			if p := r.prom[it.id]; p != nil && len(p) == 1 {
+				visible = true
+			}
+		}
+		if !visible {
+			r.mu.Unlock()
+			r.observeInnerDelivery()
+			r.mu.Lock()
+		}
+	}
 	defer r.mu.Unlock()
 	if r.roundFlush {
 		r.logf("flush-done", 0)
